@@ -873,6 +873,12 @@ def _degenerate(st, r):
             return r[2]
         if op == "bincount" and _known_empty(st, r[1]):
             return ("fill", Poly.const(0), as_poly(r[2]))
+        if op == "bincount" and r[1][0] == "concat" and len(r[1]) >= 3:
+            # occurrences in a concatenation = sum of the occurrences in the parts
+            acc = ("bincount", r[1][1], r[2])
+            for part in r[1][2:]:
+                acc = mk_add(st, acc, ("bincount", part, r[2]))
+            return acc
         if op == "add":
             if _is_zero_fill(st, r[2]):
                 return r[1]
